@@ -3,7 +3,7 @@ import fnmatch, json, os, subprocess, sys, time, shutil
 from concurrent.futures import ThreadPoolExecutor
 
 VERIF = os.path.dirname(os.path.dirname(os.path.abspath(__file__)))
-EVID = os.path.join(VERIF, "evidence")
+EVID = os.environ.get("VERIF_EVIDENCE_DIR", os.path.join(VERIF, "evidence"))
 REPLAYS = os.path.join(EVID, "replays")
 TMP = os.path.join(VERIF, "build", "tmp")
 NCPU = int(os.environ.get("VERIF_JOBS", os.cpu_count() or 4))
@@ -59,6 +59,15 @@ def run_jobs(prop, tier, jobs, env=None):
                                timeout=j.get("timeout", 3600), env=env)
         except subprocess.TimeoutExpired:
             raise HarnessError("job timed out (harness error, not a finding): %s" % " ".join(argv))
+        if r.returncode < 0 or r.returncode in (99, 134, 139):
+            # the engine code crashed inside the explorer (signal / sanitizer abort): that is a finding about
+            # the code under test, not a harness error; the witness is the sub-space that was being explored
+            spaces = [argv[k + 1] for k, a in enumerate(argv) if a in ("--space", "--list", "--sig", "--mode", "--script")]
+            cls = "%s:crash_in_engine_code:%s" % (prop, "signal_%d" % -r.returncode if r.returncode < 0 else "exit_%d" % r.returncode)
+            results[i] = dict(subspaces=[], states=0, transitions=0, counters={"crashed_jobs": 1}, samples=[], outcomes=["crash"],
+                              violation_classes={cls: 1},
+                              violations=[{"class": cls, "detail": {"crash_argv": argv[:-2], "spaces": spaces, "output_tail": r.stdout[-1500:]}}])
+            return
         if r.returncode != 0 or not os.path.exists(out):
             raise HarnessError("job failed rc=%s: %s\n%s" % (r.returncode, " ".join(argv), r.stdout[-3000:]))
         d = json.load(open(out))
